@@ -12,7 +12,7 @@ pub static DEF: PropertyDef = PropertyDef {
     level: "exploration",
     rule: "generated programs with warning and error sites that execute at most once per play-through (read of a temp whose declaration was skipped, divert through a variable \
            holding an int, arithmetic on a void result, division/modulo by zero, tunnel without ->->, exhausted content), optionally re-stamped with an older inkVersion \
-           (constructor-time warning) x seeded continue/choose histories with resets. Two peers run the same history: one with an error handler, one without. Oracles over the \
+           (constructor-time warning) x seeded continue/choose histories with resets, in a third of the cases with lines finished by time-limited slices (virtual clock; pauses inside the look-ahead too). Two peers run the same history: one with an error handler, one without. Oracles over the \
            recorded delivery history: no message is delivered twice between resets; a message is delivered with the type its text states; the handler deliveries of a continue \
            equal the messages the no-handler twin newly exposes in that continue; without a handler a continue returns Err exactly when it raised an error and never for a \
            warning, errors stay readable until reset, warnings are readable after the continue that raised them; a delivered line that carries a warning site comes with its \
@@ -24,7 +24,7 @@ pub static DEF: PropertyDef = PropertyDef {
     exhaustive_note: "none (sampled programs and histories)",
     generate,
     execute,
-    must_hit: &["fault.message.warning_delivered", "fault.message.error_delivered", "fault.message.version_warning", "fault.message.continue_after_warning", "fault.message.reset_after_error"],
+    must_hit: &["fault.message.warning_delivered", "fault.message.error_delivered", "fault.message.version_warning", "fault.message.continue_after_warning", "fault.message.reset_after_error", "fault.slice.message_in_sliced_continue"],
     timeout_s: 30,
     hang_class: None,
     sub_builds: &[],
@@ -54,10 +54,17 @@ fn generate(_corpus: &Corpus, tier: Tier, run: u64, rng: &mut Rng) -> Option<Cas
         Tier::Thorough => 3 + rng.below(9),
     };
     let mut ops = Vec::new();
+    let sliced = rng.chance(1, 3);
     for _ in 0..beats {
         let k = 1 + rng.below(5);
         for _ in 0..k {
-            ops.push(Op::Continue);
+            if sliced && rng.chance(1, 2) {
+                // the handler peer finishes this line in time-limited slices (the pause can fall inside the
+                // look-ahead after the newline); the no-handler twin uses a plain continue
+                ops.push(Op::ContinueSliced { pauses: vec![1 + rng.below(6) as u32], finish_plain: rng.chance(1, 3), repeat_last: true });
+            } else {
+                ops.push(Op::Continue);
+            }
         }
         ops.push(Op::Choose(rng.below(5) as u32));
         if rng.chance(1, 6) {
@@ -183,7 +190,13 @@ fn execute(case: &Case) -> CaseResult {
                 _ => {}
             }
         }
-        if matches!(op, Op::Continue) && can_h {
+        if matches!(op, Op::Continue | Op::ContinueSliced { .. }) && can_h {
+            if matches!(op, Op::ContinueSliced { .. }) {
+                res.stats.inc("fault.slice.continue_sliced");
+                if evs.iter().any(|e| matches!(e, Ev::Handler { .. })) {
+                    res.stats.inc("fault.slice.message_in_sliced_continue");
+                }
+            }
             continues_in_epoch += 1;
             if warned_in_epoch {
                 res.stats.inc("fault.message.continue_after_warning");
@@ -240,7 +253,8 @@ fn execute(case: &Case) -> CaseResult {
             continue;
         }
         let before = n.observe();
-        let rn = n.apply(op);
+        let plain = Op::Continue;
+        let rn = n.apply(if matches!(op, Op::ContinueSliced { .. }) { &plain } else { op });
         if n.fuel_out {
             res.discard = Some("fuel".into());
             return res;
@@ -305,7 +319,7 @@ fn execute(case: &Case) -> CaseResult {
             in_sync = in_sync && h_has_error == !new_err.is_empty();
         }
     }
-    if restamped && version_deliveries == 0 && case.ops.iter().any(|o| matches!(o, Op::Continue)) && res.violations.is_empty() {
+    if restamped && version_deliveries == 0 && case.ops.iter().any(|o| matches!(o, Op::Continue | Op::ContinueSliced { .. })) && res.violations.is_empty() {
         // the first continue must have delivered it (if any continue ran at all)
         let ran = h.log.borrow().iter().any(|e| matches!(e, Ev::Line { .. }) || matches!(e, Ev::Handler { .. }));
         if ran {
